@@ -84,4 +84,24 @@ theorem ownReport?_eq_some {a : UInt16} {r : Option Msg} {s : State} :
     subst h
     simp [ownReport?]
 
+theorem ownReport?_eq_none {a : UInt16} {r : Option Msg} :
+    ownReport? a r = none ↔ ∀ s, r ≠ some (.reportState a s) := by
+  constructor
+  · intro h s hr
+    rw [(ownReport?_eq_some).2 hr] at h; cases h
+  · intro h
+    cases ho : ownReport? a r with
+    | none => rfl
+    | some s => exact absurd ((ownReport?_eq_some).1 ho) (h s)
+
+theorem anyReport?_eq_some {r : Option Msg} {s : State} :
+    anyReport? r = some s ↔ ∃ a', r = some (.reportState a' s) := by
+  constructor
+  · intro h
+    unfold anyReport? at h
+    split at h
+    · rename_i a' s'; simp at h; subst h; exact ⟨a', rfl⟩
+    · cases h
+  · rintro ⟨a', rfl⟩; rfl
+
 end Flipdot
